@@ -2626,25 +2626,40 @@ def namespace_to_flowir(
 
     pattern_name = re.compile(SignatureNamePattern)
 
+    # VV: (stage, name) pairs that components already use
+    taken_names: typing.Set[typing.Tuple[int, str]] = set()
+    naming_errors = []
+
     for _, comp in components.items():
         assert isinstance(comp.scope.template, Component)
 
-        if comp.step_name not in component_names:
-            component_names[comp.step_name] = 0
-            name = comp.step_name
-        else:
-            component_names[comp.step_name] += 1
-            prior = component_names[comp.step_name]
-            name = "-".join((comp.step_name, number_to_roman_like_numeral(prior)))
+        match = pattern_name.fullmatch(comp.step_name)
+        if match is None:
+            naming_errors.append(experiment.model.errors.DSLInvalidFieldError(
+                location=comp.scope.dsl_location(),
+                underlying_error=ValueError(
+                    f"The step name {comp.step_name} of {comp.scope.location} cannot be the name of a component, "
+                    f"component names must match {SignatureNamePattern} (e.g. they cannot end with a digit)")
+            ))
+            continue
 
-
-        match = pattern_name.fullmatch(name)
         match_groups = match.groupdict()
+        stage = int(match_groups.get("stage") or 0)
+        name = match_groups["name"]
 
-        uid_to_name[tuple(comp.scope.location)] = (int(match_groups.get("stage") or 0), match_groups["name"])
+        # VV: Append roman numerals till the name is unique in its stage (another step may literally be "name-I")
+        while (stage, name) in taken_names:
+            component_names[comp.step_name] = component_names.get(comp.step_name, 0) + 1
+            name = "-".join((match_groups["name"], number_to_roman_like_numeral(component_names[comp.step_name])))
+
+        taken_names.add((stage, name))
+        uid_to_name[tuple(comp.scope.location)] = (stage, name)
 
         comp.flowir['name'] = uid_to_name[tuple(comp.scope.location)][1]
         comp.flowir['stage'] = uid_to_name[tuple(comp.scope.location)][0]
+
+    if naming_errors:
+        raise experiment.model.errors.DSLInvalidError.from_errors(naming_errors)
 
     complete = experiment.model.frontends.flowir.FlowIRConcrete(
         flowir_0={},
